@@ -568,6 +568,24 @@ def run_chain(r, obs):
                 check_types_model(obs, sr, chain, res[1].get("variable", {}), "Compose",
                                   bool(name))
                 check_types_model(obs, sr, chain, sc.get("variable", {}), "Sequence", False)
+        # the same variable OBJECT at two positions (v, w, w): Compose and the Sequence of those
+        # objects still agree
+        if n >= 1 and sr is r["starts"][0]:
+            objs = [build_var(v) for v in chain]
+            for pattern in ([0, -1, -1], [0, -1, 0], [-1, -1]):
+                rep_objs = [objs[i] for i in pattern] if n > 1 else [objs[0], objs[0], objs[0]]
+                try:
+                    cres = lena.variables.Compose(*rep_objs)(mkstart(sr))
+                    sres2 = list(lena.core.Sequence(*rep_objs).run(iter([mkstart(sr)])))
+                except Exception as e:  # pylint: disable=broad-except
+                    obs.count("repeated_object_compositions_raised")
+                    continue
+                obs.count("compose_vs_sequence_compared")
+                obs.check(len(sres2) == 1 and freeze(cres) == freeze(sres2[0]),
+                          "compose-context-differs-from-sequence:repeated-variable-object",
+                          "Compose and Sequence of the same variable objects in the pattern %r "
+                          "(chain %r): Compose gives %r, Sequence %r"
+                          % (pattern, chain, cres, sres2))
         for what, results in (("Compose", comp_results), ("Sequence", seq_results)):
             f0 = freeze(results[0])
             obs.check(all(freeze(x) == f0 for x in results[1:]),
